@@ -77,6 +77,23 @@ for _base in (list, tuple, set, frozenset, dict, str, bytes, int, float):
         _c.__verif_expr__ = (lambda self, _c=_c, _b=_base: '%s(%s)' % (_c.__name__, oracles.expr_of(str.__str__(self) if _b is str else _b(self))))
     SUBCLASSES[_base] = [_plain, _loudc]
 
+# a tuple subclass that merely *carries* namedtuple-looking attributes: still a plain subclass
+_ft = type('FieldsTuple', (tuple,), {'__module__': __name__, '_fields': ('id', 'name'), '__slots__': ()})
+_ft.__verif_expr__ = lambda self: 'FieldsTuple(%s)' % oracles.expr_of(tuple(self))
+setattr(sys.modules[__name__], 'FieldsTuple', _ft)
+SUBCLASSES[tuple].append(_ft)
+
+# subclasses living in a private top-level module `_mcpriv` while an unrelated public module `mcpriv`
+# (which does not re-export them) is imported too: the printed name must be the class's own module
+import types as _types
+_priv, _pub = _types.ModuleType('_mcpriv'), _types.ModuleType('mcpriv')
+sys.modules['_mcpriv'], sys.modules['mcpriv'] = _priv, _pub
+for _base in (list, str, int, dict):
+    _c = type('Priv' + _base.__name__.capitalize(), (_base,), {'__module__': '_mcpriv'})
+    _c.__verif_expr__ = (lambda self, _c=_c, _b=_base: '_mcpriv.%s(%s)' % (_c.__name__, oracles.expr_of(str.__str__(self) if _b is str else _b(self))))
+    setattr(_priv, _c.__name__, _c)
+    SUBCLASSES[_base].append(_c)
+
 
 class IE(enum.IntEnum):
     A = 1
@@ -103,7 +120,8 @@ class Fl(enum.Flag):
 
 def namespace():
     import mc
-    ns = {'mc': mc, 'Call': Call, 'float': float, 'frozenset': frozenset, 'set': set}
+    ns = {'mc': mc, 'Call': Call, 'float': float, 'frozenset': frozenset, 'set': set,
+          '_mcpriv': sys.modules['_mcpriv'], 'mcpriv': sys.modules['mcpriv']}
     return ns
 
 
